@@ -68,15 +68,17 @@ def tree_listing(root):
 FINISH = {None: None, "reversed": pools.order_reversed, "rot1": pools.order_rot(1)}    # delivery order of unordered results
 
 
-def run_case(ctx, rep, p, q, vars1, vars2, model, kinds=("?", "?"), start=None, expect_refusal=None, finish=None, cli=False):
+def run_case(ctx, rep, p, q, vars1, vars2, model, kinds=("?", "?"), start=None, expect_refusal=None, finish=None, cli=False, relout=False):
     from amr_kitchen import PlotfileCooker
     from amr_kitchen.combine.combine import combine
     d1, d2 = ctx.newdir("c06a_"), ctx.newdir("c06b_")
     plotgen.materialize(p, d1); plotgen.materialize(q, d2)
     work = ctx.newdir("c06w_"); os.makedirs(work)
     out = os.path.join(work, "out")
-    case = {"p": p, "q": q, "vars1": vars1, "vars2": vars2, "kinds": list(kinds), "expect_refusal": expect_refusal, "finish": finish, "cli": cli}
+    case = {"p": p, "q": q, "vars1": vars1, "vars2": vars2, "kinds": list(kinds), "expect_refusal": expect_refusal, "finish": finish, "cli": cli,
+            "relout": relout}
     if cli: rep.count("console-script")
+    if relout: rep.count("relative-output-after-chdir")
     rep.case({"p": p, "q": q, "v1": vars1, "v2": vars2}, nontrivial=(kinds[0] != "mono" or kinds[1] not in ("mono", "same")
                                                                    or vars1 is not None or vars2 is not None or bool(expect_refusal)))
     rep.count(f"layouts:{kinds[0]}/{kinds[1]}")
@@ -89,6 +91,13 @@ def run_case(ctx, rep, p, q, vars1, vars2, model, kinds=("?", "?"), start=None, 
                 status = tools.combine_cli(d1, d2, out, vars1, vars2)
                 if status != 0:
                     raised = SystemExit(status)       # a refusal the shell sees
+            elif relout:
+                # the readers are opened (absolute paths) in one working directory, the combination is asked for from another
+                # one under a bare relative name
+                from ..common import chdir
+                r1, r2 = PlotfileCooker(d1), PlotfileCooker(d2)
+                with chdir(work):
+                    combine(r1, r2, pltout="out", vars1=vars1, vars2=vars2)
             else:
                 combine(PlotfileCooker(d1), PlotfileCooker(d2), pltout=out, vars1=vars1, vars2=vars2)
     except Exception as e:
@@ -240,7 +249,7 @@ def run(ctx, rep, model=True):
             if ctx.quick and j not in (0, 1 + i % 7):
                 continue
             run_case(ctx, rep, p, q, v1, v2, model, kinds, start=[None, pools.order_reversed][j % 2],
-                     finish=[None, "reversed", "rot1"][(i + j) % 3], cli=((i + j) % 5 == 3))
+                     finish=[None, "reversed", "rot1"][(i + j) % 3], cli=((i + j) % 5 == 3), relout=((i + j) % 5 == 1))
         if i % 3 == 0:
             for kind, q2 in mismatches(ctx.rng, p, q):
                 run_case(ctx, rep, p, q2, None, None, model, kinds, expect_refusal=kind, cli=(i % 2 == 0))
@@ -253,4 +262,4 @@ def run(ctx, rep, model=True):
 def replay(ctx, rep, obj, model=True):
     c = obj["case"]
     run_case(ctx, rep, c["p"], c["q"], c["vars1"], c["vars2"], model, tuple(c.get("kinds", ("?", "?"))),
-             expect_refusal=c.get("expect_refusal"), finish=c.get("finish"), cli=c.get("cli", False))
+             expect_refusal=c.get("expect_refusal"), finish=c.get("finish"), cli=c.get("cli", False), relout=c.get("relout", False))
